@@ -96,7 +96,7 @@ def run(chk, replay=None):
         r = byid[rid]
         label, al, _ = rid.split("|")
         spinless = all(o["spin2"] == 0 for o in r["outer"][1:])
-        sig = f"rotation-variant:{'multi' if r['ntop'] > 1 else 'single'}-topology:{'spinless' if spinless else 'spinful'}-final-state:alignment={al[:3]}"
+        sig = f"rotation-variant:{label}:{'multi' if r['ntop'] > 1 else 'single'}-topology:alignment={al[:3]}"
         chk.violation(sig, f"{label} under alignment {al}: intensity changes by {r['reldiff_q'] * 1e-9:.3g} (relative) under a global rotation ({r['ntop']} topologies)", {"record": r})
     bad = dict(next(r for r in records if r["ntop"] == 1))
     bad["id"] = "corrupted"
